@@ -1117,7 +1117,7 @@ class Alg:
             c = n.cval()
             if eqlike or c == 0:
                 return TRUE if op(c, 0) else FALSE
-        if d is None and not g:
+        if d is None and all(v in P.positive for v, _ in g):
             sk = _sign_known(Alg(n))
             if sk in (1, -1):
                 return TRUE if op(sk, 0) else FALSE
